@@ -223,6 +223,9 @@ def run(chk):
     V.quiet_threads()
     quick = chk.tier == "quick"
     pipeline_model(chk)
+    # a graph that is not a chain: the lagging diamond of LagNet.tla with a consumer that stops
+    import lagnet
+    lagnet.pause_grid(chk, "C13")
     # mailbox level
     cs = [c for c in c05.all_configs(max_msg=3 if quick else 5, max_sub=3 if quick else 3, caps=(1, 2) if quick else (1, 2, 3, 4),
                                      perm_msgs=0, fut=False) if c["NMsg"] >= 1]
